@@ -1202,6 +1202,16 @@ func c19driver(ctx *hlib.Ctx) {
 		sp.seedDelay = 0
 		specs = append(specs, sp)
 	}
+	{
+		// the hypothesis of C19_safety is necessary on the real code: CRC-32 colliding pieces are accepted
+		sp := c19gen(r.Fork(), "faulty", ctx.Tier)
+		sp.kind, sp.size, sp.pieceLen, sp.nLeech = "seed-crc-collision", 1024, 128, 1
+		sp.content = r.Bytes(sp.size)
+		sp.prepop, sp.delay, sp.seeder = [][]int{nil}, []time.Duration{0}, "agent"
+		sp.corrupt, sp.collide, sp.unsol, sp.depart, sp.slow, sp.maxConn = true, true, false, -1, false, 2
+		sp.seedDelay = 4 * time.Second
+		specs = append(specs, sp)
+	}
 	for len(specs) < ctx.N {
 		k := "faulty"
 		if r.Chance(30) {
